@@ -1,6 +1,6 @@
 (* C12 - The reported push/pull status always describes the previous step. *)
 From Coq Require Import NArith List Bool.
-From Arimaa Require Import Types U64 Board Engine Cells Rules Monitors Refine Invariant TurnLemmas.
+From Arimaa Require Import Types U64 Board Engine Cells Rules Monitors Refine Invariant TurnLemmas Traps Pending.
 Open Scope N_scope.
 
 (* the status after a step of the piece (o,k) on square i is the three-way rule of spec/Rules.v:
@@ -34,3 +34,16 @@ Proof.
   pose proof (T1_move s pp H1 H2 (status_inv_ok _ _ _ H5) i d) as T. rewrite E in T. exact T.
 Qed.
 Print Assumptions C12_pending.
+
+(* ... and there is at least one: along every game from the initial state or from a legal start position (ReachL),
+   a state with a push pending offers a completion.  Displacing the victim can neither capture nor freeze its pusher. *)
+Theorem C12_pending_nonempty : forall s pp sq k, ReachL s -> ph s = PlayPhase pp -> pstate pp = MustCompletePush sq k ->
+  valid_actions_no_rep s <> nil.
+Proof. exact reach_pending_nonempty. Qed.
+Print Assumptions C12_pending_nonempty.
+
+Theorem C12_pusher_stays_unfrozen : forall c m v t kv, c v = Some (negb m, kv) -> c t = None -> legal_traps c ->
+  forall p kp, p < 64 -> c p = Some (m, kp) -> stronger kp kv = true -> frozen c p = false ->
+  frozen (after_captures (moved c v t)) p = false.
+Proof. exact pusher_not_frozen. Qed.
+Print Assumptions C12_pusher_stays_unfrozen.
